@@ -22,7 +22,7 @@ ASSUMPTIONS = [
     "property-name pool has pairwise distinct Python images (collisions belong to C12)",
     "required-with-default waiver is three-valued ('either'): both accept and reject are tolerated",
 ]
-BUDGET = {"quick": 220, "thorough": 3500}
+BUDGET = {"quick": 480, "thorough": 4500}
 
 try:
     import jsonschema
